@@ -180,6 +180,63 @@ theorem no_misdelivery (cfg : Cfg α) (ops : List (Op α)) (op : Op α) (evs : L
     · have := (List.pairwise_cons.mp hsorted).1 c hc
       omega
 
+/-- **Completeness, one step: a forwardable datagram is queued, not dropped.**  In ANY
+state: if the actor of `c` (running, registered as `x.owner`) reads a datagram frame for
+`dst` whose batch passes the forwarder's size check, `dst` has an entry, and the packet
+queue of its active connection has room, then the packet is appended to exactly that
+queue — labelled with `x.owner` — the acceptance is logged, and `dst` is recorded in the
+sender's `sent_to` set.  Nothing else changes. -/
+theorem forwardable_is_queued (cfg : Cfg α) (s : State α) (c : Cid) (x : Conn α) (dst : Id) (d : Dgram α)
+    (e : Entry) (y : Conn α) (hx : s.conns c = some x) (hex : x.exited = false)
+    (hs : sendable cfg d = true) (he : s.entries dst = some e) (hy : s.conns e.active = some y)
+    (hroom : y.packetQ.length < cfg.cap) :
+    recvFrame cfg s c (.datagrams dst d) =
+      emit (setSentTo (setConn s e.active (some { y with packetQ := y.packetQ ++ [(x.owner, d)] }))
+        x.owner (insertNodup dst (s.sentTo x.owner)))
+        [.accepted c x.owner dst e.active d] := by
+  simp [RelayRegistry.recvFrame, hx, hex, sendPacket, hs, he, hy, hroom]
+
+/-- Conversely the only reasons a decoded datagram is NOT queued: the size check, no entry
+for the destination, or a full queue (a closed queue cannot occur in reachable states). -/
+theorem not_queued_reasons (cfg : Cfg α) (s : State α) (c : Cid) (x : Conn α) (dst : Id) (d : Dgram α)
+    (hx : s.conns c = some x) (hex : x.exited = false) :
+    (recvFrame cfg s c (.datagrams dst d)).log = s.log ++ [.dropped c dst .unforwardable] ∧ sendable cfg d = false ∨
+    (recvFrame cfg s c (.datagrams dst d)).log = s.log ++ [.dropped c dst .noClient] ∧ s.entries dst = none ∨
+    (∃ e, s.entries dst = some e ∧ s.conns e.active = none ∧
+      (recvFrame cfg s c (.datagrams dst d)).log = s.log ++ [.dropped c dst .closed]) ∨
+    (∃ e y, s.entries dst = some e ∧ s.conns e.active = some y ∧ ¬ y.packetQ.length < cfg.cap ∧
+      (recvFrame cfg s c (.datagrams dst d)).log = s.log ++ [.dropped c dst .full]) ∨
+    (∃ e, s.entries dst = some e ∧
+      (recvFrame cfg s c (.datagrams dst d)).log = s.log ++ [.accepted c x.owner dst e.active d]) := by
+  simp only [RelayRegistry.recvFrame, hx, hex, sendPacket]
+  by_cases hs : sendable cfg d = false
+  · left; simp [hs]
+  · right
+    cases he : s.entries dst with
+    | none => left; simp [hs]
+    | some e =>
+      right
+      cases hy : s.conns e.active with
+      | none => left; exact ⟨e, rfl, hy, by simp [hs, hy]⟩
+      | some y =>
+        right
+        by_cases hroom : y.packetQ.length < cfg.cap
+        · right; exact ⟨e, rfl, by simp [hs, hy, hroom]⟩
+        · left; exact ⟨e, y, rfl, hy, hroom, by simp [hs, hy, hroom]⟩
+
+/-- **Completeness, delivery.**  In every reachable state a running connection with a
+non-empty packet queue writes its head out when its actor takes a delivery step (the head
+passes the size check by the queue invariant): what was accepted is delivered, in order,
+as long as the connection lives (`accepted_eq_delivered_append_queue`). -/
+theorem queued_head_is_delivered (cfg : Cfg α) (ops : List (Op α)) (c : Cid) (x : Conn α) (src : Id) (d : Dgram α)
+    (rest : List (Id × Dgram α)) (hx : (run cfg ops).conns c = some x) (hex : x.exited = false)
+    (hq : x.packetQ = (src, d) :: rest) :
+    deliverPacket cfg (run cfg ops) c =
+      emit (setConn (run cfg ops) c (some { x with packetQ := rest })) [.out c (.datagrams src d)] := by
+  have hs : sendable cfg d = true :=
+    (QInv.runFrom cfg ops (QInv.init cfg)) c x hx (src, d) (by rw [hq]; exact List.mem_cons_self)
+  simp [RelayRegistry.deliverPacket, hx, hex, hq, hs]
+
 /-- Delivery never creates datagrams: a connection that was never accepted-for delivers
 none (corollary of `delivery_prefix`). -/
 theorem nothing_from_nothing (cfg : Cfg α) (ops : List (Op α)) (c : Cid)
